@@ -3,7 +3,7 @@ import collections, json, os, random, re, shutil, subprocess, time
 import common
 
 PID = "C12"
-FN_ARITY = {"sq": 1, "madd": 2, "pair": 2, "nest": 2, "perm": 2, "perm2": 2, "layout": 2}
+FN_ARITY = {"sq": 1, "madd": 2, "pair": 2, "nest": 2, "perm": 2, "perm2": 2, "layout": 2, "closure": 2}
 VALUE_DEPENDENT = ("poly", "perm", "perm2", "layout")
 
 
@@ -61,6 +61,7 @@ def oracle(sc, res):
     if res["error"]:
         if "Inconsistent" in res["error"] and sc.get("special") == "iszero": bad("inconsistent-contexts-subqap-one", "a sub-circuit that uses a comparison / LinComb.ONE fails at proving time: " + res["error"][:160])
         elif "Inconsistent functions" in res["error"] and sc.get("special") in VALUE_DEPENDENT: pass          # the inconsistency is reported, as required
+        elif "Inconsistent contexts" in res["error"] and sc.get("special") == "closure": pass                 # a wire of another context inside a sub-circuit: reported, as required
         else: bad("error:" + res["error"].split(":")[0], "scenario raised " + res["error"][:200])
         return out, {}
     if sc.get("special") in VALUE_DEPENDENT:
@@ -150,7 +151,7 @@ def run(tier, seed):
     n = 40 if tier == "quick" else 400
     scs = [json.load(open(os.path.join(common.VERIF, "corpus", PID, f))) for f in sorted(os.listdir(os.path.join(common.VERIF, "corpus", PID))) if f.endswith(".json")]
     for i in range(n):
-        scs.append(gen_scenario(rnd, special=("iszero" if i % 13 == 5 else "poly" if i % 13 == 9 else "perm" if i % 13 == 2 else "perm2" if i % 13 == 11 else "layout" if i % 13 == 7 else None)))
+        scs.append(gen_scenario(rnd, special=("iszero" if i % 13 == 5 else "poly" if i % 13 == 9 else "perm" if i % 13 == 2 else "perm2" if i % 13 == 11 else "layout" if i % 13 == 7 else "closure" if i % 13 == 4 else None)))
     from concurrent.futures import ThreadPoolExecutor
     with ThreadPoolExecutor(common.NPROC) as ex:
         results = list(ex.map(run_scenario, scs))
